@@ -1307,6 +1307,10 @@ macro_rules! iter_sub_expr {
                         }
                     }
                     Expression::LitArr { fields, .. } => {
+                        // empty slots have no sub expression: skip them (do not stop at them)
+                        while let Some(ArrayFieldKind::EmptySlot) = fields.get(self.index) {
+                            self.index += 1;
+                        }
                         let x = fields.$get(self.index)?;
                         self.index += 1;
                         match x {
